@@ -122,7 +122,8 @@ def load_module(path: Path):
 
 class Translator:
     def __init__(self, src: str, mod=None):
-        self.tree = ast.parse(src)
+        from .e3_telomere import normalise_lock_idiom
+        self.tree = normalise_lock_idiom(ast.parse(src))      # acquire(); try: … finally: release()  ==  with self._lock: …
         self.mod = mod
         cls = [n for n in self.tree.body if isinstance(n, ast.ClassDef) and n.name == CLASS]
         if len(cls) != 1:
